@@ -445,9 +445,70 @@ func checkHeld(c *seq.Ctx, kinds []stepKind, callerCommits bool) {
 	c.Case(fmt.Sprintf("held/len=%d/commit=%v", len(kinds), callerCommits), bad, sig, func() interface{} { return desc })
 }
 
+// checkWindows: the caller keeps its steps in ONE slice and hands Transact consecutive windows of it
+// (batching): every step runs exactly once, in order, in the transaction of its own window, and the
+// caller's slice still holds the caller's steps afterwards (Transact must not write into it).
+func checkWindows(c *seq.Ctx, n, width int, failAt int) {
+	e := &env{}
+	g, sdb, err := open(e)
+	if err != nil {
+		c.Case("open", "cannot open gorm over the fake driver: "+err.Error(), "harness: open failed", nil)
+		return
+	}
+	defer sdb.Close()
+	var ran []int
+	errStep := errors.New("window step failed")
+	all := make([]gormx.GormProcFn, n, n+4) // spare capacity behind the last step too
+	for i := 0; i < n; i++ {
+		i := i
+		all[i] = func(txn *gorm.DB) error {
+			ran = append(ran, i)
+			if i == failAt {
+				return errStep
+			}
+			return nil
+		}
+	}
+	desc := fmt.Sprintf("%d steps in one slice, windows of %d, step %d fails", n, width, failAt)
+	bad := ""
+	var wantRan []int
+	for lo := 0; lo < n && bad == ""; lo += width {
+		hi := lo + width
+		if hi > n {
+			hi = n
+		}
+		e.events = nil
+		before := len(ran)
+		res := gormx.Transact(g, all[lo:hi]...)
+		fails := failAt >= lo && failAt < hi
+		for i := lo; i < hi; i++ {
+			wantRan = append(wantRan, i)
+			if i == failAt {
+				break
+			}
+		}
+		nC, nR := count(e.events, "Commit"), count(e.events, "Rollback")
+		switch {
+		case fmt.Sprint(ran) != fmt.Sprint(wantRan):
+			bad = fmt.Sprintf("window [%d,%d): steps run so far %v, want %v", lo, hi, ran, wantRan)
+		case fails && (nR != 1 || nC != 0 || !errors.Is(res, errStep)):
+			bad = fmt.Sprintf("window [%d,%d) holds the failing step: driver events %v, result %v", lo, hi, e.events, res)
+		case !fails && (nC != 1 || nR != 0 || res != nil):
+			bad = fmt.Sprintf("window [%d,%d) holds only succeeding steps: driver events %v, result %v", lo, hi, e.events, res)
+		}
+		_ = before
+	}
+	c.Case(fmt.Sprintf("windows/n=%d/ok=%v", n, bad == ""), func() string {
+		if bad == "" {
+			return ""
+		}
+		return desc + ": " + bad
+	}(), "steps passed as windows of one slice do not each run once in their own transaction", func() interface{} { return desc })
+}
+
 func main() {
 	r := ev.Start("C18")
-	r.Rule("every step list of length 0..n over {ok, ok+Exec, returns error, Exec fails, panics(string), panics(error), panics(nil), special error values, a nested Transact on the step's own handle with its result ignored/returned, a step that records an error on the handle and returns nil} x begin ok/fails x commit ok/fails x rollback ok/fails x {plain, Combine(all), Combine(tail), nested Combine}, run through gormx.Transact on gorm's MySQL dialector over an in-process database/sql driver that records Begin/Exec/Commit/Rollback; plus Transact on a handle the caller already began a transaction on (no step, error, caller's transaction untouched and still finishable); lists of length <= 2 also under global log levels info/error/dpanic/fatal; distinct = (length, outcome class, fault pattern, wrapping)")
+	r.Rule("every step list of length 0..n over {ok, ok+Exec, returns error, Exec fails, panics(string), panics(error), panics(nil), special error values, a nested Transact on the step's own handle with its result ignored/returned, a step that records an error on the handle and returns nil} x begin ok/fails x commit ok/fails x rollback ok/fails x {plain, Combine(all), Combine(tail), nested Combine}, run through gormx.Transact on gorm's MySQL dialector over an in-process database/sql driver that records Begin/Exec/Commit/Rollback; plus 1..6 steps kept in one slice and passed as consecutive windows of every width (each step once, in its own window's transaction); plus Transact on a handle the caller already began a transaction on (no step, error, caller's transaction untouched and still finishable); lists of length <= 2 also under global log levels info/error/dpanic/fatal; distinct = (length, outcome class, fault pattern, wrapping)")
 	r.Assume("a failing driver callback has no effect", "panic(nil) follows the toolchain's semantics for the harness module (go 1.21: *runtime.PanicNilError)")
 	n := r.Pick(3, 4)
 	seq.RunFamily(r, seq.Family{Name: "transact", Run: func(c *seq.Ctx) {
@@ -486,6 +547,15 @@ func main() {
 		}
 		for l := 0; l <= n; l++ { // shortest lists first, so the first counterexample is the shortest
 			rec(l)
+		}
+	}})
+	seq.RunFamily(r, seq.Family{Name: "windows-of-one-step-slice", Run: func(c *seq.Ctx) {
+		for n := 1; n <= 6; n++ {
+			for width := 1; width <= n; width++ {
+				for failAt := -1; failAt < n; failAt++ {
+					checkWindows(c, n, width, failAt)
+				}
+			}
 		}
 	}})
 	seq.RunFamily(r, seq.Family{Name: "transact-on-a-handle-already-in-a-transaction", Run: func(c *seq.Ctx) {
